@@ -21,7 +21,7 @@ pub open spec fn ecdh_anonymous_sender() -> Seq<u8> {
          0x53u8, 0x65u8, 0x6Eu8, 0x64u8, 0x65u8, 0x72u8, 0x20u8, 0x20u8, 0x20u8, 0x20u8]
 }
 /// public-key algorithm ID of ECDH (9.1)
-pub open spec fn PK_ALGO_ECDH() -> u8 { 18 }
+pub open spec fn pk_algo_ecdh() -> u8 { 18 }
 /// "A variable-length field containing KDF parameters: a 1-octet size of the following fields (3),
 ///  a 1-octet value 1 (reserved), a 1-octet hash function ID used with a KDF, a 1-octet algorithm ID
 ///  for the symmetric algorithm used to wrap the symmetric key"
@@ -29,7 +29,7 @@ pub open spec fn ecdh_kdf_params_field(hash_id: u8, kek_alg_id: u8) -> Seq<u8> {
 /// Param = curve_OID_len || curve_OID || public_key_alg_ID || 03 || 01 || KDF_hash_ID || KEK_alg_ID
 ///         || "Anonymous Sender    " || recipient_fingerprint
 pub open spec fn ecdh_param(oid: Seq<u8>, hash_id: u8, kek_alg_id: u8, fingerprint: Seq<u8>) -> Seq<u8> {
-    seq![oid.len() as u8] + oid + seq![PK_ALGO_ECDH()] + ecdh_kdf_params_field(hash_id, kek_alg_id)
+    seq![oid.len() as u8] + oid + seq![pk_algo_ecdh()] + ecdh_kdf_params_field(hash_id, kek_alg_id)
         + ecdh_anonymous_sender() + fingerprint
 }
 /// the recipient fingerprint field is 20 octets for a version 4 key and 32 octets for a version 6 key
@@ -129,11 +129,11 @@ pub open spec fn x448_info() -> Seq<u8> {
 /// 5.1.6: "HKDF with SHA256, an info parameter of `OpenPGP X25519` and no salt"; input = 32 octets ephemeral public
 /// key || 32 octets recipient public key || 32 octets shared secret; the KEK is an AES-128 key (16 octets)
 pub open spec fn x25519_kek(ephemeral: Seq<u8>, recipient: Seq<u8>, shared: Seq<u8>) -> Seq<u8> {
-    hkdf_okm(HKDF_SHA256(), None, ephemeral + recipient + shared, x25519_info(), 16)
+    hkdf_okm(hkdf_sha256_id(), None, ephemeral + recipient + shared, x25519_info(), 16)
 }
 /// 5.1.7: HKDF with SHA512, info `OpenPGP X448`, no salt; 56 + 56 + 56 octets; the KEK is an AES-256 key (32 octets)
 pub open spec fn x448_kek(ephemeral: Seq<u8>, recipient: Seq<u8>, shared: Seq<u8>) -> Seq<u8> {
-    hkdf_okm(HKDF_SHA512(), None, ephemeral + recipient + shared, x448_info(), 32)
+    hkdf_okm(hkdf_sha512_id(), None, ephemeral + recipient + shared, x448_info(), 32)
 }
 /// the session key (v6 PKESK) resp. the session key without the algorithm octet (v3 PKESK: the octet is sent in
 /// the clear outside) is wrapped with RFC 3394 under that KEK, no padding
@@ -149,14 +149,14 @@ pub open spec fn x448_esk(ephemeral: Seq<u8>, recipient: Seq<u8>, shared: Seq<u8
 // ======================================================================================
 /// packet type ID "in OpenPGP format encoding (bits 7 and 6 set, bits 5-0 carry the packet type ID)"
 pub open spec fn packet_type_octet(type_id: u8) -> u8 { (0xC0u8 | type_id) }
-pub open spec fn TYPE_SKESK() -> u8 { 3 }
-pub open spec fn TYPE_SECRET_KEY() -> u8 { 5 }
-pub open spec fn TYPE_SECRET_SUBKEY() -> u8 { 7 }
+pub open spec fn type_skesk() -> u8 { 3 }
+pub open spec fn type_secret_key() -> u8 { 5 }
+pub open spec fn type_secret_subkey() -> u8 { 7 }
 /// 5.3.2: info = packet type octet (0xC3), packet version (6), cipher algorithm ID, AEAD algorithm ID
 pub open spec fn skesk6_info(cipher_id: u8, aead_id: u8) -> Seq<u8> { seq![0xC3u8, 6u8, cipher_id, aead_id] }
 /// 5.3.2: key = HKDF-SHA256(IKM = S2K-derived key, no salt, info), as long as the cipher's key
 pub open spec fn skesk6_key(s2k_key: Seq<u8>, cipher_id: u8, aead_id: u8, key_len: nat) -> Seq<u8> {
-    hkdf_okm(HKDF_SHA256(), None, s2k_key, skesk6_info(cipher_id, aead_id), key_len)
+    hkdf_okm(hkdf_sha256_id(), None, s2k_key, skesk6_info(cipher_id, aead_id), key_len)
 }
 /// 5.3.1: a v4 SKESK with an encrypted session key carries CFB(key = S2K key, IV = zeros)( cipher ID || session key )
 pub open spec fn skesk4_plain(cipher_id: u8, session_key: Seq<u8>) -> Seq<u8> { seq![cipher_id] + session_key }
@@ -171,7 +171,7 @@ pub open spec fn secret_aead_info(type_id: u8, key_version: u8, cipher_id: u8, a
 }
 /// KEK = HKDF-SHA256(IKM = S2K-derived key, no salt, info), 32 octets are taken and the cipher uses its key size
 pub open spec fn secret_aead_key(s2k_key: Seq<u8>, info: Seq<u8>, n: nat) -> Seq<u8> {
-    hkdf_okm(HKDF_SHA256(), None, s2k_key, info, n)
+    hkdf_okm(hkdf_sha256_id(), None, s2k_key, info, n)
 }
 /// associated data = the Packet Type ID octet, followed by the public key packet fields, starting with the packet
 /// version number (i.e. the serialised body of the corresponding public key packet)
